@@ -116,6 +116,10 @@ abbrev IgnoresDb := List (Str × Nat)
 
 def sp (kw v : Str) : Str := kw ++ ' ' :: v
 
+/-- `'%s' % n` / `'%d' % n` for a natural number (same digits as `Py.natToStr`, defined on lists
+so that it evaluates inside the kernel) -/
+def natDec (n : Nat) : Str := Nat.toDigits 10 n
+
 /-- the `(keyword, value)` pairs `IrcUser.preserve` writes, in order -/
 def userCmds (u : User) : List (Str × Str) :=
   [(kwName, u.name), (kwIgnore, boolStr u.ignore), (kwSecure, boolStr u.secure)] ++
@@ -137,13 +141,13 @@ def blockLines (hdr : Str) (body : List Str) : List Str := hdr :: body.map inden
 
 def unlines (ls : List Str) : Str := ls.flatMap (fun l => l ++ ['\n'])
 
-def userBlock (p : Nat × User) : List Str := blockLines (sp kwUser (natToStr p.1)) (userLines p.2)
+def userBlock (p : Nat × User) : List Str := blockLines (sp kwUser (natDec p.1)) (userLines p.2)
 
 /-- `UsersDictionary.flush`: the text of users.conf -/
 def dumpUsers (db : UsersDb) : Str :=
   unlines ((sortBy (fun a b => decide (a.1 ≤ b.1)) db.users).flatMap userBlock)
 
-def expCmd (kw : Str) (p : Str × Nat) : Str × Str := (kw, sp p.1 (natToStr p.2))
+def expCmd (kw : Str) (p : Str × Nat) : Str × Str := (kw, sp p.1 (natDec p.2))
 
 def chanCmds (c : Chan) : List (Str × Str) :=
   [(kwLobotomized, boolStr c.lobotomized), (kwDefaultAllowW, boolStr c.defaultAllow)] ++
@@ -173,7 +177,7 @@ def dumpNetworks (db : NetworksDb) : Str :=
 
 /-- `IgnoresDB.flush`: only unexpired entries are written -/
 def dumpIgnores (E : Env) (db : IgnoresDb) : Str :=
-  unlines ((db.filter (fun p => decide (E.now < p.2) || p.2 = 0)).map (fun p => sp p.1 (natToStr p.2)))
+  unlines ((db.filter (fun p => decide (E.now < p.2) || p.2 = 0)).map (fun p => sp p.1 (natDec p.2)))
 
 /-! ## `unpreserve.Reader` -/
 
